@@ -60,6 +60,23 @@ def cases(ctx):
                "npts": rng.randint(1, 7), "engine": rng.choice(["h5netcdf", "joblib", None])}
 
 
+def _absent(rng, vals, typ):
+    """A label the coordinate does not have - far away, or a near miss of an existing one (a longer / shorter string
+    sharing its prefix, a fractional value on a whole-number axis, the next float)."""
+    base = rng.choice(vals)
+    if typ == "str":
+        cand = ["absent", str(base) + "0", str(base) + "_b", str(base)[:-1] or "q", str(base).upper() + "x"]
+    elif typ == "int":
+        cand = [999, int(base) + 0.5, int(base) + 0.25, -int(base) - 1000, float(int(base)) + 1e-6]
+    else:
+        cand = [123.456, float(base) + 1e-7, float(base) * (1 + 1e-12) + 1e-300 if base else 5e-324, -float(base) - 77.0]
+    rng.shuffle(cand)
+    for c in cand:
+        if all(c != v for v in vals):
+            return c
+    return {"int": 999, "float": 123.456, "str": "absent"}[typ]
+
+
 def build(case):
     import xarray as xr
     rng = np.random.default_rng(case["dseed"])
@@ -216,7 +233,7 @@ def run_case(ctx, case):
             vals = ds[d].values.tolist()
             setting[d] = rng.choice(vals)
             if rng.random() < 0.15:
-                setting[d] = {"int": 999, "float": 123.456, "str": "absent"}[case["coordt"][d]]
+                setting[d] = _absent(rng, vals, case["coordt"][d])
                 ctx.count("absent_coordinate_requests")
         if rng.random() < 0.2:
             setting["new_param"] = 7          # a parameter the data has no dimension for: nothing can be there yet
@@ -242,7 +259,7 @@ def run_case(ctx, case):
             vals = ds[d].values.tolist()
             combos[d] = rng.sample(vals, rng.randint(1, len(vals)))
             if rng.random() < 0.3:
-                combos[d] = combos[d] + [{"int": 999, "float": 123.456, "str": "absent"}[case["coordt"][d]]]
+                combos[d] = combos[d] + [_absent(rng, vals, case["coordt"][d])]
                 ctx.count("absent_coordinate_requests")
         if rng.random() < 0.2:
             combos["new_param"] = [7, 8]       # extending the grid along a parameter the dataset does not know yet
